@@ -97,7 +97,7 @@ def check_model(model, x, y, rec, tags, what, check_T=True):
 @st.composite
 def generic_cases(draw, tier="quick"):
     hi = 6 if tier == "quick" else 10
-    backing = draw(st.sampled_from(["dense", "csr", "csc", "func", "func", "view"]))
+    backing = draw(st.sampled_from(["dense", "csr", "csc", "func", "func", "view", "roll"]))
     two_d = backing == "func" and draw(st.booleans())
     if two_d:
         dshape = [draw(st.integers(2, 3)), draw(st.integers(2, 3))]
@@ -113,6 +113,8 @@ def generic_cases(draw, tier="quick"):
             # a function pair whose forward returns a *view* of its input (restriction to a prefix / every second entry)
             sel = draw(st.sampled_from(["prefix", "stride", "all"]))
             mf = {"prefix": min(mf, nf), "stride": (nf + 1) // 2, "all": nf}[sel]
+        if backing == "roll":
+            mf = nf     # x - 0.6 * roll(x): written with numpy functions that act along the last axis of whatever they are given
         kinds = gen.IDENTITY_LIKE_1D * 3 + ["kl", "step"]
         dom = draw(gen.geom1d_spec(nf, kinds))
         ran = draw(gen.geom1d_spec(mf, kinds))
@@ -122,6 +124,8 @@ def generic_cases(draw, tier="quick"):
     c = {"backing": backing, "dom": dom, "ran": ran, "A": Amat, "x": x, "y": y,
          # after the first round of checks one geometry is replaced by another one with the same function space
          "regeom": draw(st.sampled_from([None, None, "range", "domain"])), "fortran_out": draw(st.booleans())}
+    if backing == "roll":
+        c["A"] = [[(1.0 if j == i else 0.0) - (0.6 if j == (i - 1) % nf else 0.0) for j in range(nf)] for i in range(nf)]
     if backing == "view":
         c["sel"] = sel
         idx = {"prefix": list(range(mf)), "stride": list(range(0, nf, 2)), "all": list(range(nf))}[sel]
@@ -143,6 +147,9 @@ def build_generic(c):
         return cuqi.model.LinearModel(sp.csc_matrix(Am), range_geometry=ran, domain_geometry=dom)
     dshape = tuple(c["dom"]["shape"]) if "shape" in c["dom"] else (c["dom"]["fun_dim"],)
     rshape = tuple(c["ran"]["shape"]) if "shape" in c["ran"] else (c["ran"]["fun_dim"],)
+    if b == "roll":
+        return cuqi.model.LinearModel(lambda x: x - 0.6 * np.roll(x, 1, axis=-1), lambda y: y - 0.6 * np.roll(y, -1, axis=-1),
+                                      range_geometry=ran, domain_geometry=dom)
     if b == "view":
         n = dshape[0]
         sl = {"prefix": slice(0, rshape[0]), "stride": slice(0, n, 2), "all": slice(0, n)}[c["sel"]]
